@@ -73,15 +73,18 @@ EpTypes == <<Err, Obj("Thing", <<F("id", "int", FALSE, TRUE, TRUE), F("name", "s
 (* parameters), each with or without parameters of its own, with bodies of  *)
 (* the same or of different types                                           *)
 NoBody == [base |-> "", arr |-> FALSE, req |-> FALSE]
-PairOp(m, pa, own, bt) ==
-  [method |-> m, path |-> pa.p, pparams |-> PP(pa, "int"),
+\* pt: the type this operation gives the variables of the path (two operations of one path may disagree)
+PairOpT(m, pa, own, bt, pt) ==
+  [method |-> m, path |-> pa.p, pparams |-> PP(pa, pt),
    params |-> IF own THEN <<[name |-> "q", loc |-> "query", base |-> "string", arr |-> FALSE, req |-> FALSE]>> ELSE <<>>,
    body |-> IF m \in {"GET", "DELETE"} THEN NoBody ELSE [base |-> bt, arr |-> FALSE, req |-> TRUE],
    resps |-> <<[code |-> "200", base |-> "ref:Thing", arr |-> FALSE]>>]
+PairOp(m, pa, own, bt) == PairOpT(m, pa, own, bt, "int")
 PairDocs ==
-  {<<PairOp(mm[1], pa, o1, "ref:Thing"), PairOp(mm[2], pa, o2, b2)>> :
+  {<<PairOp(mm[1], pa, o1, "ref:Thing"), PairOpT(mm[2], pa, o2, b2, pt)>> :
      mm \in {x \in Methods \X Methods : x[1] # x[2]}, pa \in {x \in Paths : x.p \in {"/things", "/things/{id}"}},
-     o1 \in BOOLEAN, o2 \in BOOLEAN, b2 \in {"ref:Thing", "ref:Err"}}
+     o1 \in BOOLEAN, o2 \in BOOLEAN, b2 \in {"ref:Thing", "ref:Err"},
+     pt \in {"int", "string"}}
            \cup
   {<<PairOp("PUT", pa, FALSE, "ref:Thing"), PairOp("PATCH", pa, FALSE, "ref:Thing"), PairOp("POST", pa, FALSE, b3)>> :
      pa \in {x \in Paths : x.p = "/a/{x}/b/{y}"}, b3 \in {"ref:Thing", "ref:Err"}}
